@@ -954,3 +954,107 @@ package solver
 //@   loop 3
 //@     invariant cnt:  nbSat == tcount(c.lits, pb.Model, j) && 0 <= j && nbSat >= 0
 //@   assert after-loop 3 sat: clauseSat ==> tcount(c.lits, pb.Model, j + 1) == card
+
+// ---------------------------------------------------------------- run-time propagation of pseudo-boolean constraints (C02)
+
+// A is compatible with the bindings of the solver: true variables are true in A, false ones false.
+//@ define agreesS(m []decLevel, A asg) bool = forall(v, 0, len(m), (m[v] > 0 ==> A[v]) && (m[v] < 0 ==> !A[v]))
+// shape of a PB constraint visited by propagation: one positive weight per literal, literals over known variables
+//@ define pbwf(s *Solver, c *Clause) bool = s != nil && c != nil && c.pbData != nil && len(c.pbData.weights) == len(c.lits) && len(s.reason) == len(s.model) && litsWF(c.lits, len(s.model)) && forall(k, 0, len(c.lits), c.pbData.weights[k] >= 1)
+
+// slackSum: when it answers sat, the literals already true reach the degree; otherwise slack is
+// exactly (weight of the literals that are not false) - degree.
+//@ func (*Solver).slackSum
+//@   requires wf: pbwf(s, c)
+//@   ensures  sat:   sat ==> tsum(c.lits, c.pbData.weights, s.model, len(c.lits)) >= c.Cardinality()
+//@   ensures  slack: !sat ==> slack == nfsum(c.lits, c.pbData.weights, s.model, len(c.lits)) - c.Cardinality()
+//@   loop 1
+//@     invariant idx: 0 <= rangei && rangei <= len(c.lits) && card == c.Cardinality()
+//@     invariant acc: slack == nfsum(c.lits, c.pbData.weights, s.model, rangei) - card && sum == tsum(c.lits, c.pbData.weights, s.model, rangei)
+//@     invariant next: rangei < len(c.lits) ==> tsum(c.lits, c.pbData.weights, s.model, rangei + 1) >= tsum(c.lits, c.pbData.weights, s.model, rangei)
+
+// propagateUnit binds the variable of the literal so that the literal is true at level lvl, with
+// c as its reason; no other binding changes and the degree of c is untouched.
+//@ func (*Solver).propagateUnit
+//@   requires wf: s != nil && c != nil && unit >= 0 && unit / 2 < len(s.model) && len(s.reason) == len(s.model) && lvl >= 1
+//@   modifies s.model[*], s.reason[*], s.trail, s.trail[*], c.lbdValue
+//@   ensures  bound: s.model[unit / 2] == ite(unit % 2 == 0, lvl, -lvl)
+//@   ensures  rest:  forall(v, 0, len(s.model), v != unit / 2 ==> s.model[v] == old(s.model[v]))
+//@   ensures  card:  c.Cardinality() == old(c.Cardinality()) && c.Learned() == old(c.Learned())
+//@   ensures  trail: grown(s.trail)
+
+// propagateAll: bindings only grow, and every new binding makes a literal of c true that was unbound.
+//@ func (*Solver).propagateAll
+//@   requires wf: s != nil && c != nil && len(s.reason) == len(s.model) && litsWF(c.lits, len(s.model)) && lvl >= 1 && !aliased(c.lits, s.trail)
+//@   modifies s.model[*], s.reason[*], s.trail, s.trail[*], c.lbdValue
+//@   ensures  grow:  forall(v, 0, len(s.model), old(s.model[v]) != 0 ==> s.model[v] == old(s.model[v]))
+//@   ensures  only:  forall(v, 0, len(s.model), s.model[v] != old(s.model[v]) ==> exists(k, 0, len(c.lits), c.lits[k] / 2 == v && strue(s.model[v], c.lits[k])))
+//@   ensures  card:  c.Cardinality() == old(c.Cardinality()) && c.Learned() == old(c.Learned())
+//@   ensures  lits:  c.lits == old(c.lits) && forall(k, 0, len(c.lits), c.lits[k] == old(c.lits[k])) && !aliased(c.lits, s.trail)
+//@   ensures  trail: grown(s.trail)
+//@   loop 1
+//@     invariant idx:  0 <= i && i <= len(c.lits) && c.lits == old(c.lits) && len(s.reason) == len(s.model) && s.model == old(s.model) && grown(s.trail)
+//@     invariant lits: forall(k, 0, len(c.lits), c.lits[k] == old(c.lits[k])) && !aliased(c.lits, s.trail)
+//@     invariant grow: forall(v, 0, len(s.model), old(s.model[v]) != 0 ==> s.model[v] == old(s.model[v]))
+//@     invariant only: forall(v, 0, len(s.model), s.model[v] != old(s.model[v]) ==> exists(k, 0, len(c.lits), c.lits[k] / 2 == v && strue(s.model[v], c.lits[k])))
+//@     invariant card: c.Cardinality() == old(c.Cardinality()) && c.Learned() == old(c.Learned())
+
+// updateWatchPB (trusted frame): only the watch lists and the watched flags of the constraint change
+//@ func (*Solver).updateWatchPB
+//@   trusted
+//@   modifies s.wl.wlistPb[*], all []*Clause, clause.pbData.watched[*]
+
+// simplifyPseudoBool (one visit of a PB constraint by propagation), for every assignment A that is
+// compatible with the bindings before the visit and satisfies the constraint: the visit reports no
+// conflict and A is compatible with every binding it made (sound propagation; a reported conflict
+// therefore means no such A exists).
+//@ func (*Solver).simplifyPseudoBool
+//@   ghost A asg
+//@   requires wf: pbwf(s, clause) && lvl >= 1 && !aliased(clause.lits, s.trail)
+//@   modifies s.model[*], s.reason[*], s.trail, s.trail[*], clause.lbdValue, s.wl.wlistPb[*], all []*Clause, clause.pbData.watched[*]
+//@   ensures  sound: old(agreesS(s.model, A)) && old(holds(clause, A)) ==> result && agreesS(s.model, A)
+//@   ensures  grow:  forall(v, 0, len(s.model), old(s.model[v]) != 0 ==> s.model[v] == old(s.model[v]))
+//@   assert after-call (*Solver).slackSum#1 nf:    lem_psum_nf(clause.lits, clause.pbData.weights, A, s.model, len(clause.lits))
+//@   assert after-call (*Solver).slackSum#1 tight: lem_psum_tight(clause.lits, clause.pbData.weights, A, s.model, len(clause.lits), result0)
+//@   loop 1
+//@     invariant wf:    pbwf(s, clause) && !aliased(clause.lits, s.trail) && s.model == old(s.model) && grown(s.trail)
+//@     invariant same:  clause.lits == old(clause.lits) && clause.pbData == old(clause.pbData) && clause.pbData.weights == old(clause.pbData.weights) && clause.Cardinality() == old(clause.Cardinality()) && forall(k, 0, len(clause.lits), clause.lits[k] == old(clause.lits[k]) && clause.pbData.weights[k] == old(clause.pbData.weights[k]))
+//@     invariant grow:  forall(v, 0, len(s.model), old(s.model[v]) != 0 ==> s.model[v] == old(s.model[v]))
+//@     invariant sound: old(agreesS(s.model, A)) && old(holds(clause, A)) ==> agreesS(s.model, A)
+//@   loop 2
+//@     invariant wf:    pbwf(s, clause) && !aliased(clause.lits, s.trail) && s.model == old(s.model) && grown(s.trail) && 0 <= i && slack >= 1
+//@     invariant same:  clause.lits == old(clause.lits) && clause.pbData == old(clause.pbData) && clause.pbData.weights == old(clause.pbData.weights) && clause.Cardinality() == old(clause.Cardinality()) && forall(k, 0, len(clause.lits), clause.lits[k] == old(clause.lits[k]) && clause.pbData.weights[k] == old(clause.pbData.weights[k]))
+//@     invariant grow:  forall(v, 0, len(s.model), old(s.model[v]) != 0 ==> s.model[v] == old(s.model[v]))
+//@     invariant sound: old(agreesS(s.model, A)) && old(holds(clause, A)) ==> agreesS(s.model, A)
+//@     invariant heavy: old(agreesS(s.model, A)) && old(holds(clause, A)) ==> forall(k, 0, len(clause.lits), clause.pbData.weights[k] > slack && !tv(A, clause.lits[k]) ==> sfalse(s.model[clause.lits[k] / 2], clause.lits[k]))
+
+// ---------------------------------------------------------------- run-time propagation of cardinality constraints (C02)
+
+//@ define cardwf(s *Solver, c *Clause) bool = s != nil && c != nil && c.pbData == nil && len(s.reason) == len(s.model) && litsWF(c.lits, len(s.model)) && c.Cardinality() >= 1
+
+// swapFalse (trusted frame): permutes the literals of the constraint and updates the watch lists
+//@ func (*Solver).swapFalse
+//@   trusted
+//@   modifies clause.lits[*], s.wl.wlistPb[*], all []*Clause
+
+// simplifyCardConstr (one visit of a cardinality constraint by propagation): same statement as
+// simplifyPseudoBool, with the counters of the scan tied to the number of true / non-false literals.
+//@ func (*Solver).simplifyCardConstr
+//@   ghost A asg
+//@   requires wf: cardwf(s, clause) && lvl >= 1 && !aliased(clause.lits, s.trail)
+//@   modifies s.model[*], s.reason[*], s.trail, s.trail[*], clause.lbdValue, clause.lits[*], s.wl.wlistPb[*], all []*Clause
+//@   ensures  sound: old(agreesS(s.model, A)) && old(holds(clause, A)) ==> result && agreesS(s.model, A)
+//@   ensures  grow:  forall(v, 0, len(s.model), old(s.model[v]) != 0 ==> s.model[v] == old(s.model[v]))
+//@   assert after-loop 1 nf:    lem_psum_nf(clause.lits, nil, A, s.model, len(clause.lits))
+//@   assert exit nfx: lem_psum_nf(clause.lits, nil, A, s.model, len(clause.lits))
+//@   assert after-loop 1 tight: lem_psum_tight(clause.lits, nil, A, s.model, len(clause.lits), 0)
+//@   loop 1
+//@     invariant idx:   0 <= i && i <= length && length == len(clause.lits) && card == clause.Cardinality()
+//@     invariant cnt:   nbTrue == tsum(clause.lits, nil, s.model, i) && nbFalse == i - nfsum(clause.lits, nil, s.model, i) && nbUnb == nfsum(clause.lits, nil, s.model, i) - tsum(clause.lits, nil, s.model, i)
+//@     invariant next:  i < length ==> tsum(clause.lits, nil, s.model, i + 1) >= tsum(clause.lits, nil, s.model, i) && nfsum(clause.lits, nil, s.model, i + 1) >= nfsum(clause.lits, nil, s.model, i)
+//@   loop 2
+//@     invariant wf:    cardwf(s, clause) && !aliased(clause.lits, s.trail) && s.model == old(s.model) && grown(s.trail) && 0 <= i
+//@     invariant same:  clause.lits == old(clause.lits) && clause.pbData == nil && clause.Cardinality() == old(clause.Cardinality()) && forall(k, 0, len(clause.lits), clause.lits[k] == old(clause.lits[k]))
+//@     invariant grow:  forall(v, 0, len(s.model), old(s.model[v]) != 0 ==> s.model[v] == old(s.model[v]))
+//@     invariant sound: old(agreesS(s.model, A)) && old(holds(clause, A)) ==> agreesS(s.model, A)
+//@     invariant heavy: old(agreesS(s.model, A)) && old(holds(clause, A)) ==> forall(k, 0, len(clause.lits), !tv(A, clause.lits[k]) ==> sfalse(s.model[clause.lits[k] / 2], clause.lits[k]))
